@@ -66,10 +66,16 @@ theorem InvS.step {s s' : State} (h : Step s s') (hP : InvP s) (hi : InvS s) : I
     have hc0 := none_fired hnf
     constructor <;> intros <;> (try dsimp only [callSet] at *) <;> first | assumption | grind [upd_apply, inSet]
   | down t d hidle hl h1 hb =>
-    refine InvS.frame hi' t _ rfl ?_ ?_ rfl rfl rfl rfl rfl ?_ rfl rfl rfl rfl <;> simp [hidle, inSet]
-  | get t hidle => refine InvS.frame hi' t _ rfl ?_ ?_ rfl rfl rfl rfl rfl ?_ rfl rfl rfl rfl <;> simp [hidle, inSet]
-  | waitFor t tau hidle h1 h2 => refine InvS.frame hi' t _ rfl ?_ ?_ rfl rfl rfl rfl rfl ?_ rfl rfl rfl rfl <;> simp [hidle, inSet]
-  | reg t id hidle hs => refine InvS.frame hi' t _ rfl ?_ ?_ rfl rfl rfl rfl rfl ?_ rfl rfl rfl rfl <;> simp [hidle, inSet]
-  | ready t hidle => refine InvS.frame hi' t _ rfl ?_ ?_ rfl rfl rfl rfl rfl ?_ rfl rfl rfl rfl <;> simp [hidle, inSet]
+    refine InvS.frame hi' t _ rfl ?_ ?_ rfl rfl rfl rfl rfl Iff.rfl rfl rfl rfl rfl <;> simp [hidle, inSet]
+  | get t hidle => refine InvS.frame hi' t _ rfl ?_ ?_ rfl rfl rfl rfl rfl Iff.rfl rfl rfl rfl rfl <;> simp [hidle, inSet]
+  | waitFor t tau hidle h1 h2 => refine InvS.frame hi' t _ rfl ?_ ?_ rfl rfl rfl rfl rfl Iff.rfl rfl rfl rfl rfl <;> simp [hidle, inSet]
+  | reg t id hidle hs => refine InvS.frame hi' t _ rfl ?_ ?_ rfl rfl rfl rfl rfl Iff.rfl rfl rfl rfl rfl <;> simp [hidle, inSet]
+  | ready t hidle => refine InvS.frame hi' t _ rfl ?_ ?_ rfl rfl rfl rfl rfl Iff.rfl rfl rfl rfl rfl <;> simp [hidle, inSet]
+
+theorem InvS.reach {s : State} (h : Reachable Init Step s) : InvS s := by
+  induction h with
+  | base hi => obtain ⟨n, hn, rfl⟩ := hi; exact InvS.init n
+  | tail hr hst ih => exact InvS.step hst (InvP.reach hr) ih
 
 end Babylon.Future
+
